@@ -147,7 +147,7 @@ Definition mag_bits (v : Z) : Z := if v =? 0 then 0 else Z.log2 (Z.abs v) + 1.
 
 (* ---------- Scup locator ---------- *)
 (* writeScupLocator(block, scup): no-op when len(block) < 2 *)
-Fixpoint scup_write_rev (rev : list Z) (scup : Z) : list Z :=
+Definition scup_write_rev (rev : list Z) (scup : Z) : list Z :=
   match rev with
   | last :: prev :: r =>
     wrapU 8 (Z.shiftr scup 4) :: Z.lor (Z.land prev 240) (wrapU 8 (Z.land scup 15)) :: r
